@@ -195,6 +195,18 @@ for it in range(N):
         want_c = {names[0]: 0.0, names[1]: f01 * qc[names[0]], names[2]: qc[names[2]] + f12 * qc[names[1]]}
         for n in names[:3]:
             if abs(s[n].position - want_c[n]) > 1e-9: bad("matured-position-rolls-into-target-at-factor-once", chain=True, security=n, got=float(s[n].position), want=float(want_c[n]))
+# ---- the same ticker under two sub-strategies with different multipliers: each node's risk uses its OWN multiplier and position
+for it2 in range(3):
+    m1, m2 = float(rs.choice([1.0, 10.0])), float(rs.choice([0.5, 100.0])); q1, q2 = float(rs.randint(1, 50)), float(-rs.randint(1, 50))
+    px = pd.DataFrame(100.0, index=dts, columns=["x"]); ur = pd.DataFrame(rs.uniform(0.5, 3.0, size=(len(dts), 1)), index=dts, columns=["x"])
+    root = Strategy("root", [], children=[Strategy("s1", [], children=[Security("x", multiplier=m1)]), Strategy("s2", [], children=[Security("x", multiplier=m2)])])
+    root.setup(px, unit_risk={"delta": ur}); root.adjust(1e6); root.update(dts[0]); root.allocate(3e5, "s1"); root.allocate(3e5, "s2"); root.update(dts[0])
+    root["s1"].transact(q1, "x"); root["s2"].transact(q2, "x"); root.update(dts[1])
+    A.UpdateRisk("delta")(root); evals += 1
+    u = float(ur.loc[dts[1], "x"]); w1, w2 = u * q1 * m1, u * q2 * m2
+    got = (float(root["s1"]["x"].risk["delta"]), float(root["s2"]["x"].risk["delta"]), float(root.risk["delta"]))
+    if abs(got[0] - w1) > 1e-9 * max(1, abs(w1)) or abs(got[1] - w2) > 1e-9 * max(1, abs(w2)) or abs(got[2] - (w1 + w2)) > 1e-9 * max(1, abs(w1 + w2)):
+        bad("security-risk-is-unit-risk-x-position-x-multiplier", same_ticker_under_two_sub_strategies=True, got=list(got), want=[w1, w2, w1 + w2], multipliers=[m1, m2])
 print("JSON:" + json.dumps(dict(evaluations=evals, distinct=len(distinct), failures=fails[:5], samples=samples,
       rule="random trees (flat / one nested level, 2-5 securities, multipliers in {0.5,1,10,100}, 1-3 measures, unit-risk tables with missing securities, history depth 0-2): risk per node recomputed; square hedges neutralise every measure; "
            "pseudo-inverse hedge compared with numpy lstsq; close schedules through a Backtest with SelectActive; roll schedules on the direct API with exact expected positions",
